@@ -240,16 +240,62 @@ def parse_assumptions(out):
 
 # --------------------------------------------------------------------------- G2 anchors
 
+def _struct_fields(src, name):
+    """the set of `field: Type` entries of `struct <name> { ... }` (order, attributes, visibility and
+    comments ignored), or None when the struct is not found"""
+    m = re.search(r"struct\s+%s\s*\{(.*?)\n\}" % re.escape(name), src, re.S)
+    if not m:
+        return None
+    body = re.sub(r"//[^\n]*", "", m.group(1))
+    body = re.sub(r"#\[[^\]]*\]", "", body)
+    out = set()
+    for part in body.split(",\n"):
+        part = " ".join(part.replace(",", " , ").split()).strip(" ,")
+        part = re.sub(r"^pub(\([^)]*\))?\s+", "", part)
+        if part:
+            out.add(part.replace(" , ", ", "))
+    return out
+
+
+def probe_values():
+    """constants and default values read from the compiled crates (harness binary `hookcheck`)"""
+    rc, out = run([harness_bin("hookcheck")], cwd=HARNESS, timeout=120)
+    vals = {}
+    for line in out.splitlines():
+        m = re.match(r"^PROBE (\S+) = (.*)$", line)
+        if m:
+            vals[m.group(1)] = m.group(2).strip()
+    return vals
+
+
 def anchor_gate(spec):
-    """each anchor: dict(file, regex, count|expect, why). Returns (ok, results)"""
+    """each anchor: dict(file, regex, count|expect, why) -- a regex over the source;
+    dict(file, struct, fields, why) -- the field set of a struct, order-insensitive;
+    dict(probe, expect, why) -- a value read from the compiled crates. Returns (ok, results)"""
     results, ok = [], True
+    probes = None
     for a in spec.get("anchors", []):
+        if "probe" in a:
+            if probes is None:
+                probes = probe_values()
+            found = probes.get(a["probe"])
+            good = found == a["expect"]
+            results.append(dict(probe=a["probe"], expect=a["expect"], why=a.get("why", ""), found=found, ok=good))
+            ok = ok and good
+            continue
         path = os.path.join(REPO, a["file"])
         try:
             src = open(path).read()
         except OSError as e:
             results.append(dict(a, found="unreadable: %s" % e, ok=False))
             ok = False
+            continue
+        if "struct" in a:
+            fs = _struct_fields(src, a["struct"])
+            good = fs is not None and fs == set(a["fields"])
+            results.append(dict(file=a["file"], struct=a["struct"], why=a.get("why", ""),
+                                found=sorted(fs) if fs is not None else None, ok=good))
+            ok = ok and good
             continue
         ms = re.findall(a["regex"], src, re.M | re.S)
         if "expect" in a:
@@ -349,7 +395,10 @@ def check(prop, spec, tier="quick", seed=None, replay=None):
     evidence_path = os.path.join(EVID, prop + ".json")
     release = spec.get("release", False)
 
-    ok, out = harness_build([spec["bin"]], release)
+    bins = [spec["bin"]] + (["hookcheck"] if any("probe" in a for a in spec.get("anchors", [])) and not release else [])
+    ok, out = harness_build(bins, release)
+    if ok and release and any("probe" in a for a in spec.get("anchors", [])):
+        ok, out = harness_build(["hookcheck"], False)
     if not ok:
         # the harness no longer builds against /repo: the tie is broken
         path = write_replay(prop, seed, -1, "harness does not build against the current /repo tree", out[-4000:], "build")
